@@ -53,7 +53,15 @@ fn intra_case(g: &mut Gen, cfg: &PicCfg) -> Verdict {
         Vec::new()
     };
     let size = gen_size(g, mode, cfg);
-    let pic = gen_intra_pic_with(g, cfg, mode, version, size);
+    let mut pic = gen_intra_pic_with(g, cfg, mode, version, size);
+    let mut same_tr = false;
+    if !pre.is_empty() && g.chance(1, 3) {
+        // the picture carries the temporal reference of the picture decoded before it
+        if let Some(t) = st.get_last_picture().map(|p| p.as_header().temporal_reference) {
+            pic.hdr.tr = t as u8;
+            same_tr = true;
+        }
+    }
     g.describe(|| describe_pic(&pic));
     match check_intra_on(&pic, &mut st).map_err(|m| if pre.is_empty() { m } else { format!("(on a decoder with an earlier history) {}", m) }) {
         Err(m) => {
@@ -66,6 +74,9 @@ fn intra_case(g: &mut Gen, cfg: &PicCfg) -> Verdict {
         Ok(info) => {
             let mut l: Labels = vec![mode_label(&pic.hdr), size_label(&pic.hdr)];
             l.extend(pre.iter().copied());
+            if same_tr {
+                l.push("same temporal reference as the picture decoded before");
+            }
             if info.stats.escapes > 0 {
                 l.push("has escapes");
             }
